@@ -14,7 +14,7 @@ import copy
 import math
 import json
 import os
-from pe_util import np, pe, dump_idl, reset_globals, close, f2b, b2f, dump_obs
+from pe_util import np, pe, dump_idl, reset_globals, close, f2b, b2f, dump_obs, gen_data
 from props import c02
 
 RULE = ('C02 layouts x {fft flip, shift b, scale a, rename, permute, add const, multiply c} plus random histories '
@@ -234,6 +234,24 @@ def check_history(ctx, case):
                     a, b = got['ens'][e], exp['ens'][e]
                     if a[2] != b[2] or not close(a[0], b[0], rtol=1e-12, scale=abs(b[0])) or not close(a[1], b[1], rtol=1e-12):
                         probs.append(('violation', 'history', 'step %d ens %s: %r vs fresh copy %r' % (step, e, a, b)))
+            # independent of anything the process has done before: the specification (Lean, by configuration
+            # number) evaluated on this object's data with the effective parameters
+            if ctx.lean is not None and 'exc' not in got:
+                ens = list(o.mc_names)
+                req = {'op': 'wolff', 'obs': dump_obs(o), 'S': [[e, f2b(eff[e]['S'])] for e in ens],
+                       'tau_exp': [[e, f2b(eff[e]['tau_exp'])] for e in ens], 'N_sigma': [[e, f2b(eff[e]['N_sigma'])] for e in ens]}
+                spec = c02.decode_lean(ctx.lean.call(req))
+                if 'lean_err' in spec:
+                    probs.append(('disagree', 'lean-driver-error', spec['lean_err']))
+                elif 'exc' not in spec:
+                    for e in ens:
+                        a, b = got['ens'][e], spec['ens'][e]
+                        if abs(b.get('margin', 1.0)) < 1e-8:
+                            ctx.illcond += 1
+                            continue
+                        if a[2] != b['windowsize'] or not close(a[0], b['dvalue'], rtol=1e-8, scale=abs(b['dvalue'])) or not close(a[1], b['tauint'], rtol=1e-8):
+                            probs.append(('violation', 'history-vs-specification', 'step %d ens %s: %r vs specification %r' % (
+                                step, e, a, (b['dvalue'], b['tauint'], b['windowsize']))))
             leanops.append({'step': step, 'i': i, 'eff': eff})
     reset_globals()
     # correspondence with the Lean state machine: parameter resolution
@@ -271,11 +289,40 @@ def encode_op(o):
     return {'k': 'arith'}
 
 
+def twin_rep(rng, r):
+    """a chain with the same name, first and last configuration, length and spacing as `r` but with the
+    holes (if any) in other places and other data: whatever a per-layout or per-name cache keyed on such
+    summary information would confuse it with"""
+    import math as _m
+    il = list(idl_of(r['idl']))
+    n = len(il)
+    diffs = [b - a for a, b in zip(il, il[1:])]
+    g = 0
+    for d in diffs:
+        g = _m.gcd(g, d)
+    grid = list(range(il[0] + g, il[-1], g)) if g > 0 else []
+    if n >= 4 and len(grid) > n - 2:
+        inner = sorted(rng.sample(grid, n - 2))
+        new = [il[0]] + inner + [il[-1]]
+        g2 = 0
+        for a, b in zip(new, new[1:]):
+            g2 = _m.gcd(g2, b - a)
+        if g2 == g:
+            il = new
+    nprng = np.random.default_rng(rng.getrandbits(32))
+    x = gen_data(rng, nprng, n)
+    d = dump_idl(il if len(set(b - a for a, b in zip(il, il[1:]))) > 1 else range(il[0], il[-1] + 1, il[1] - il[0]))
+    return {'name': r['name'], 'idl': d, 'samples': [float(v).hex() for v in x]}
+
+
 def gen_history(ctx):
     rng = ctx.rng
     nobj = rng.randint(2, 3)
     objs = []
     for _ in range(nobj):
+        if objs and rng.random() < 0.5:
+            objs.append({'reps': [twin_rep(rng, r) for r in rng.choice(objs)['reps']]})
+            continue
         c = c02.gen_case(ctx)
         c['cov'] = None
         # keep histories cheap
